@@ -205,7 +205,7 @@ fn describe(w: &World, k: &[u8; 32]) -> String {
 }
 
 pub fn run(p: &Params) -> Report {
-    let total = p.n(320, 6400);
+    let total = p.n(2000, 50000);
     let mine = p.share(total);
     let mut rng = Rng::new(p.shard_seed());
     let mut mon = C02 { rep: Report::new("C02"), case_seed: 0 };
